@@ -67,6 +67,7 @@ def make(oracle, stages=(1, 2, 3), payloads=("basic",), kind="structure", nontri
         js = s1_jobs(tier, harness, quick_n5_max_edges=quick_n5_max_edges, n5_routes=n5_routes)
         if front_ends:
             js += front_end_jobs(tier, harness)
+        js.sort(key=lambda j: "S1-N5" in j.name)  # the large job last (stable): cheap jobs report first
         return js
 
     def replay(desc):
